@@ -15,6 +15,7 @@ theorem Ty.TF.noAlias : ∀ (n : Nat) (t : Ty), t.w ≤ n → t.TF → t.NoAlias
     cases t <;> unfold Ty.NoAlias <;> (try trivial) <;> unfold Ty.TF at h <;> (try exact absurd h id) <;> simp only [Ty.w] at hw
     · exact ih _ (by omega) h
     · exact ⟨ih _ (by omega) h.1, ih _ (by omega) h.2⟩
+    · rename_i ts g; exact fun t' hm => ih t' (by have := Ty.w_lt_wl hm; omega) (h t' hm)
     · rename_i ts; exact fun t' hm => ih t' (by have := Ty.w_lt_wl hm; omega) (h t' hm)
     · exact ih _ (by omega) h
     · exact ih _ (by omega) h
@@ -252,6 +253,7 @@ theorem Ty.TF.us : ∀ (n : Nat) (t : Ty), t.w ≤ n → t.TF → t.US := by
     cases t <;> unfold Ty.US <;> (try trivial) <;> unfold Ty.TF at h <;> (try exact absurd h id) <;> simp only [Ty.w] at hw
     · right; exact ih _ (by omega) h
     · right; exact ⟨ih _ (by omega) h.1, ih _ (by omega) h.2⟩
+    · rename_i ts g; right; exact fun t' hm => ih t' (by have := Ty.w_lt_wl hm; omega) (h t' hm)
     · rename_i ts; exact fun t' hm => ih t' (by have := Ty.w_lt_wl hm; omega) (h t' hm)
     · exact ih _ (by omega) h
     · exact ih _ (by omega) h
